@@ -1,7 +1,7 @@
 """C11 - forest extraction returns a minimal, closed, productive rule set."""
 from hypothesis import strategies as st
 
-from vf import gen
+from vf import gen, speccheck
 from vf.oracles.lfp import INF, lfp
 from vf.props.c03 import _key
 from vf.runner import SubCheck, describe_exc
@@ -290,6 +290,34 @@ def run_partB(case, ctx):
                 f"extracted key {k} (class {cls!r}) was not turned back into a rule",
             )
         ctx.check(len(matched) == len(set(matched)), "rule-for-key", "two returned rules share one extracted key")
+        # productive with shifts re-derived from the minimum sizes of the classes (not the
+        # declared ones the database worked with): a circular rule set that was accepted
+        # because of a wrong declared shift is still circular
+        from vf.oracles import brute
+        from vf.oracles.lfp import INF, lfp
+
+        keys2, parents = [], set()
+        for r in rules:
+            try:
+                sh = tuple(speccheck.expected_shifts(r))
+            except Exception:
+                sh = tuple(r.shifts())
+            if len(sh) != len(r.children):
+                continue
+            keys2.append((cdb.get_label(r.comb_class), tuple(cdb.get_label(c) for c in r.children), sh))
+            parents.add(cdb.get_label(r.comb_class))
+        for r in rules:
+            for c in r.children:
+                l = cdb.get_label(c)
+                if l not in parents and brute.is_empty(c, 6):
+                    keys2.append((l, (), ()))
+                    parents.add(l)
+        f = lfp(keys2)
+        ctx.check(
+            f.get(root, 0) == INF,
+            "extracted-productive",
+            lambda: f"with shifts re-derived from minimum sizes the extracted rules give the root {f.get(root, 0)} computable terms; keys={keys2}",
+        )
 
 
 def subchecks():
